@@ -25,6 +25,11 @@ DIAG_VECTORS = {
     "d4": {"float_literal_trailing_zero": "Always", "hex_literal_case": "Lower", "indent_style": "Visual"},
 }
 NON_ASCII = ("fn f() {\n\tlet s = \"" + "é" * 95 + "\";\n}\n",
+             # white space that is longer than one byte in front of a comment's `*`, of code, of `//`
+             "fn f() {\n    /* a\n\u3000* b\n\u00a0\u2003* c\n     */\n\u3000let x = 1;\n\u2003// d\n}\n",
+             # items a formatter may not know: delegation
+             "impl Trait for S {\n    reuse   to_reuse::a;\n    reuse to_reuse::{b,  c};\n    fn  g( ){}\n}\n"
+             "reuse   free::f;\n",
              "fn g() {\n    // " + "世" * 60 + "\n    let x = 1; // " + "\U0001F98A" * 50 + "\n}\n",
              # literals the parser accepts and rustc rejects later
              "fn h() {\n    let a = (0b1f32, 0o7f64, 1e3, 2., 1_f32, 0x1f32, 1e+3_f64, 0b1e3, 0o1e1f32, "
@@ -85,6 +90,20 @@ def run(tier, seed, replay=None):
             jobs.append({"id": len(jobs), "src": universe.reindent(text, unit),
                          "opts": {"max_width": 100, "style_edition": universe.STYLE_EDITIONS[hn % 3]},
                          "want": [], "_pid": f"{name}@w=100:reindent-{tag}"})
+    # bundles of layout options that meet in one decision (single-line forms of items)
+    bundles = [{"fn_single_line": True, "empty_item_single_line": False},
+               {"fn_single_line": True, "where_single_line": True, "max_width": 40},
+               {"fn_single_line": True, "brace_style": "AlwaysNextLine"},
+               {"struct_lit_single_line": False, "empty_item_single_line": False, "fn_single_line": True,
+                "control_brace_style": "AlwaysNextLine"},
+               {"fn_single_line": True, "max_width": 60}, {"fn_single_line": True, "max_width": 100}]
+    for (name, text) in universe.boundary_sources():
+        hn = core.fnv(("bundle" + name).encode())
+        if tier != "thorough" and hn % 3:
+            continue
+        for bi, b in enumerate(bundles):
+            jobs.append({"id": len(jobs), "src": text, "opts": dict(b), "want": [],
+                         "_pid": f"{name}:bundle{bi}"})
     # barely usable pages (max_width / tab_spaces >= 5 holds, little more) on the template families
     for (name, text) in universe.boundary_sources():
         hn = core.fnv(("page" + name).encode())
